@@ -12,12 +12,14 @@ Open Scope N_scope.
 Inductive c18case :=
 | CReuse (typ msize : N) (wire : list N) (old : dump) (reused : bool) (rec fresh : rawres)
 | CSrv (sent seen : dump)
+| CCut (msize : N) (wire : list N) (a b : rawres)   (* a frame cut mid-body, received twice after different earlier messages *)
 | C18Bad.
 
 Definition property_holds (c : c18case) : bool :=
   match c with
   | CReuse _ _ _ _ _ rec fresh => rawres_eqb rec fresh
   | CSrv sent seen => dump_eqb sent seen
+  | CCut _ _ a b => rawres_eqb a b
   | C18Bad => true
   end.
 
@@ -51,7 +53,8 @@ Fixpoint anon (vs : list cval) : option dump :=
 
 Inductive c18c :=
 | KReuse (typ : byte) (msize : list byte) (wire : list cseg) (old : list cval) (reused : bool) (rec fresh : cres)
-| KSrv (sent seen : list cval).
+| KSrv (sent seen : list cval)
+| KCut (msize : list byte) (wire : list cseg) (a b : cres).
 
 Definition to_case18 (sc : schema) (c : c18c) : c18case :=
   match c with
@@ -67,6 +70,11 @@ Definition to_case18 (sc : schema) (c : c18c) : c18case :=
   | KSrv a b =>
       match anon a, anon b with
       | Some x, Some y => CSrv x y
+      | _, _ => C18Bad
+      end
+  | KCut msize wire a b =>
+      match mk_res sc None a, mk_res sc None b with
+      | Some x, Some y => CCut (le_num msize) (expand wire) x y
       | _, _ => C18Bad
       end
   end.
